@@ -583,6 +583,15 @@ func (c *FnCtx) resolveModifiesAll(st *State, fn *ssa.Function, text string, arg
 			c.eng.heapSorts[name] = ghostHeapSort(name)
 		}
 		return []modTarget{{heap: name}}
+	case strings.HasPrefix(text, "map(*") && strings.HasSuffix(text, ")"):
+		// the map a pointer parameter points to (at the time of the call)
+		i, t := findParam(text[5 : len(text)-1])
+		if i < 0 {
+			unsupported("modifies: unknown parameter in %q of %s", text, fn)
+		}
+		pt := t.Underlying().(*types.Pointer).Elem()
+		hn, hs := c.ptrHeapName(pt)
+		return mapT(pt, c.hget(st, hn, hs, args[i]))
 	case strings.HasPrefix(text, "map(") && strings.HasSuffix(text, ")"):
 		i, t := findParam(text[4 : len(text)-1])
 		if i < 0 {
